@@ -386,7 +386,7 @@ pub fn skeleton_fillers() -> Vec<Snippet> {
     ]
 }
 
-pub const N_SKELETONS: usize = 18;
+pub const N_SKELETONS: usize = 19;
 
 /// Build skeleton `k` with slots `s` (4 entries, indices into fillers).
 pub fn skeleton(k: usize, s: &[usize]) -> Program {
@@ -635,6 +635,24 @@ pub fn skeleton(k: usize, s: &[usize]) -> Program {
             b.extend(sl(2));
             b.push(label("h"));
             b.push(addi(A0, A0, 2));
+            b.extend(sl(3));
+        }
+        18 => {
+            // a callee leaves a value in tp (a register of neither class) that its caller reads
+            // after the call: live at the callee's exit only through the call site's live-out
+            ctx = Context::Callee;
+            b.push(addi(SP, SP, -4));
+            b.push(sw(RA, 0, SP));
+            b.extend(sl(0));
+            b.push(call("h"));
+            b.extend(sl(1));
+            b.push(r(ROp::Add, A0, A0, 4));
+            b.push(lw(RA, 0, SP));
+            b.push(addi(SP, SP, 4));
+            b.extend(sl(2));
+            b.push(ret());
+            b.push(label("h"));
+            b.push(li(4, 7));
             b.extend(sl(3));
         }
         _ => {
